@@ -180,7 +180,11 @@ func stressMain(args []string) int {
 		case "GetErrors":
 			_ = cache.GetErrors()
 		case "GetSpecDirectories":
-			if d := cache.GetSpecDirectories(); len(d) != 2 {
+			want := 2
+			if cache != c0 {
+				want = 1 // the watcher-less cache is configured with one directory
+			}
+			if d := cache.GetSpecDirectories(); len(d) != want {
 				mixed("GetSpecDirectories", d)
 			}
 		case "GetSpecDirErrors":
